@@ -131,19 +131,25 @@ def t_convex_hull_transform(M):
     return Select(Const("zeros"), Glob("len_is_0", Gm), body)           # if len(unmasked_pixels) == 0: return zeros
 
 
-def _regmax_ties(M):
-    # result = AND over the structure's offsets (centre excluded) of the shifted zero-padded mask  = punctured
-    # erosion;  result[...][image < shifted image] = False  reads the 8 neighbours (default 3x3 structure)
-    return Select(Not(Loc(1, "has_greater_neighbour", Img)), ErodeP(1, MaskE), FalseC)
+def _regmax_ties(M, repaired=True):
+    # result = ones; result[~mask] = False (the repair 4e442e0);  result &= AND over the structure's offsets (centre
+    # excluded) of the shifted zero-padded mask = punctured erosion;  result[...][image < shifted image] = False reads
+    # the 8 neighbours (default 3x3 structure)
+    t = Select(Not(Loc(1, "has_greater_neighbour", Img)), ErodeP(1, MaskE), FalseC)
+    return And(MaskE, t) if repaired else t
 
 
 def t_regional_maximum_ties(M): return _regmax_ties(M)
 
 
-def t_regional_maximum_default(M):
-    T = _regmax_ties(M)
+def _regmax_default(M, repaired):
+    T = _regmax_ties(M, repaired)                         # result = regional_maximum(image, mask, structure, True)
     picked = Glob("one_pixel_per_component(edt,label,rank_order,maximum_position)", T)
     return Select(picked, Glob("any", T), T)              # if not np.any(result): return result
+
+
+def t_regional_maximum_default(M): return _regmax_default(M, True)
+def t_regional_maximum_unmasked_ties(M): return _regmax_default(M, False)
 
 
 def _index_family(M, first, loop):
@@ -168,11 +174,13 @@ HAND = {
     "stretch": t_stretch, "median_filter": t_median_filter_fixed, "openlines": t_openlines, "roberts": t_roberts,
     "canny": t_canny, "circular_average_filter": t_circular_average_filter, "fit_polynomial": t_fit_polynomial,
     "circular_hough": t_circular_hough, "convex_hull_transform": t_convex_hull_transform,
-    "regional_maximum": t_regional_maximum_ties, "spur": t_spur, "thin": t_thin, "skeletonize": t_skeletonize,
+    "regional_maximum": t_regional_maximum_default, "spur": t_spur, "thin": t_thin, "skeletonize": t_skeletonize,
 }
 # as-is variants that the checker must REJECT (stated as Examples `accepts … = false`)
 REJECTED = {"median_filter_unmasked_minmax": ("median_filter", t_median_filter_asis),
-            "regional_maximum_default": ("regional_maximum", t_regional_maximum_default)}
+            "regional_maximum_unmasked_ties": ("regional_maximum", t_regional_maximum_unmasked_ties)}
+# further accepted configurations of listed functions (extra Examples)
+EXTRA = {"regional_maximum_ties_are_ok": ("regional_maximum", t_regional_maximum_ties)}
 # functions whose hand term depends on other functions' code (pinned too)
 ALSO_PINNED = {"canny": ["smooth_with_function_and_mask"], "openlines": ["opening", "grey_erosion", "grey_dilation"],
                "circular_average_filter": ["masked_convolution"], "thin": [], "spur": []}
